@@ -631,6 +631,15 @@ def ov_oracle(asn, cid, mvr, cvr, us, c, res, phantom_mvrs):
             res.oracle_violations.append({"what": f"replacing the manual record by a phantom ({how}) increases the overstatement assorter",
                                           "input": C.jsonable(c), "observed": {"B_phantom": b, "B_mvr": c["oa"]},
                                           "signature": f"C08:phantom-mvr-not-worst:{how}:style={us}"})
+        if not uses_pool and not cvr.phantom and c["acvr"] is not None and not isinstance(o, float):
+            # worst case = the manual record counts 0: overstatement is the CVR's own score, B = (1 - a_cvr/u)/(2 - v/u)
+            want_b = (1 - c["acvr"] / c["u"]) / (2 - c["v"] / c["u"])
+            if o != c["acvr"] or isinstance(b, float) or abs(b - want_b) > F(1, 10 ** 9) * max(1, abs(want_b)):
+                res.oracle_violations.append({"what": f"a phantom MVR ({how}) is not scored as the worst case (assorter value 0): "
+                                                      "overstatement differs from the CVR's own assorter value",
+                                              "input": C.jsonable(c), "observed": {"overstatement_phantom": o, "assort_cvr": c["acvr"],
+                                                                                   "B_phantom": b, "B_worst_case": want_b, "u": c["u"]},
+                                              "signature": f"C08:phantom-mvr-not-scored-0:{how}"})
         if cvr.phantom and not uses_pool and o != F(1, 2):
             res.oracle_violations.append({"what": "phantom CVR against a phantom MVR: overstatement is not exactly 1/2",
                                           "input": C.jsonable(c), "observed": o, "signature": "C08:phantom-cvr-not-half"})
@@ -716,6 +725,20 @@ def run_overstatement(ctx, res, mvr_pairs):
             for b in ballots:
                 r = make_record(cid, b, rng.random() < 0.5, "ctor", "s1")
                 one(asn, cid, r, r, rng.random() < 0.5, kind, "same-object")
+    # assorters whose upper bound is well above 1 (super-majority with a small share to win: u = 1/(2 share) = 3.33, 1.67, 1.25)
+    for share in (0.15, 0.3, 0.4):
+        cid = "AvB"
+        con, asns = build_assertions("supermajority", cid, share)
+        asn = asns[0]
+        u = float(asn.assorter.upper_bound)
+        ballots = BALLOTS["supermajority"]
+        for cb, cp_, us in itertools.product(ballots, (False, True), (True, False)):
+            for mb, mp_, mh in [(None, True, "format"), ({}, True, "from_dict"), (rng.choice(ballots), True, "ctor"),
+                                (rng.choice(ballots), False, "ctor"), ({"Bob": 1}, False, "ctor"), ({"Alice": 1}, False, "ctor")]:
+                asn.margin = rng.choice([0.0, 0.125, 0.5, 1.0, -0.25, 1.25, 2.0, 3.0][:5 + int(u)])
+                asn.assorter.tally_pool_means = None
+                one(asn, cid, make_record(cid, mb, mp_, mh, "m4"), make_record(cid, cb, cp_, "ctor", "phantom-4" if cp_ else "c4"), us,
+                    "supermajority", f"large-u share={share}")
     cr = C.run_corr(ctx.pid, "ov", IMPORTS + "\nOpen Scope Q_scope.", "ov_case", cases, ov_lit, "agree_ov", shard=250, show="show_ov")
     res.corr.append(("Assorter.overstatement / Assertion.overstatement_assorter vs Phantoms.overstatement(_assorter)", cr, C.jsonable))
     res.evaluations += len(cases)
@@ -729,9 +752,49 @@ def run_overstatement(ctx, res, mvr_pairs):
     res.samples += [C.jsonable(c) for c in cases[:2]]
 
 
+def run_large_make_phantoms(ctx, res):
+    """Oracle only (size-independent): 1 000 - 2 500 real CVRs, several contests on different subsets, bounds slightly above
+    the counts; sizes are never multiples of 1 000 nor powers of two."""
+    rng = ctx.rng
+    sizes = []
+    while len(sizes) < ctx.n(3, 12):
+        n = rng.randint(1001, 2500) if len(sizes) % 2 else rng.randint(2001, 2500)
+        if n % 1000 and n % 500 and n & (n - 1):
+            sizes.append(n)
+    for n in sizes:
+        names = rng.sample(CONTEST_NAMES, rng.randint(3, 4))
+        probs = dict(zip(names, rng.sample([0.95, 0.6, 0.3, 0.05], len(names))))
+        cvrs = []
+        for i in range(n):
+            votes = {k: ({"Alice": 1} if i % 3 else {"Bob": 1}) for k in names if rng.random() < probs[k]}
+            if i >= n - 3:                                       # the last records list every contest
+                votes = {k: {"Alice": 1} for k in names}
+            cvrs.append({"id": f"{i // 100 + 1}-1-{i % 100 + 1}", "votes": votes})
+        us = rng.random() < 0.75
+        mc = n + rng.randint(0, 9)
+        cons = [(k, k, None if (rng.random() < 0.2) else count_listing(cvrs, k) + rng.randint(0, 7)) for k in names]
+        rng.shuffle(cons)
+        audit, contests, cvr_list, asked = make_objects([(us, mc)], cons, cvrs, rng.choice(["from_dict", "dod", "ctor"]))
+        c = call_make_phantoms(audit, contests, cvr_list, {"prefix": "phantom-1-"}, asked)
+        c.pop("out_objs", None)
+        res.oracle_runs += 1
+        res.stats.setdefault("mp_large_sizes", []).append(n)
+        for what, sig in (mp_oracle(c) if mp_preconditions(c) else [("generator produced an input outside the property", "gen")]):
+            small = {"n_cvrs": n, "strata": c["strata"], "contests_asked": c["contests"], "contests_after": c.get("cons_after"),
+                     "true_counts": {k: count_listing(cvrs, k) for k in names}, "returned_n": c.get("n"),
+                     "records_returned": len(c.get("out", [])), "exc": c.get("exc_text"),
+                     "cvr_list": "card i (0-based) has id f'{i//100+1}-1-{i%100+1}' and lists exactly the contests whose index list "
+                                 "below contains i, with votes {'Alice': 1} if i % 3 else {'Bob': 1} (the last three cards: Alice)",
+                     "cards_listing": {k: [i for i, s_ in enumerate(cvrs) if k in s_["votes"]] for k in names}}
+            res.oracle_violations.append({"what": "make_phantoms (large list): " + what, "input": C.jsonable(small),
+                                          "observed": C.jsonable({"n": c.get("n"), "contests_after": c.get("cons_after")}),
+                                          "signature": "C08:make_phantoms:large:" + sig})
+
+
 def run(ctx, res):
     kept = []
     run_make_phantoms(ctx, res, kept)
+    run_large_make_phantoms(ctx, res)
     pairs = run_format_glue(ctx, res, kept)
     run_overstatement(ctx, res, pairs)
     res.rule = ("make_phantoms: every shortfall vector in {-1..3}^k (k<=3) on a fixed list plus random CVR lists (0-8 cards, 1-4 "
@@ -741,6 +804,8 @@ def run(ctx, res):
                 "objects); non-trivial = at least one phantom created, distinct by (strata, bounds, card ids and styles, prefix). "
                 "overstatement: exhaustive product of MVR kinds (7 ballots x phantom flag x 4 constructions) x CVR kinds x "
                 "style for plurality, three super-majority shares and both IRV assertion types, plus pooled CVRs and the phantom "
-                "MVR objects returned by Dominion/Hart.sample_from_cvrs; non-trivial = a phantom on either side")
+                "MVR objects returned by Dominion/Hart.sample_from_cvrs, plus super-majority shares 0.15/0.3/0.4 (upper bound up to 3.33); "
+                "non-trivial = a phantom on either side. Oracle-only stream: make_phantoms on 1 001-2 500 CVRs (never a multiple of "
+                "500 or a power of two), 3-4 contests on different subsets, bounds 0-7 above the counts")
     res.assumptions = ["the assorter is abstract in the model (A : card -> Q); its values in the runs are assort() of /repo called on its own",
                        "identifiers, contest names and pool labels are mapped to numbers by the harness (string equality <-> number equality)"]
